@@ -25,6 +25,7 @@ from vf import core, pki
 from vf.refs import sb2_rom
 
 ID = "C04"
+DECOY_CWD = True  # the worker runs in a directory that holds other bytes under every input file name (vf/worker.py)
 LEVEL = "exploration"
 TECHNIQUE = "runtime monitoring: independent ROM model (pure-Python AES-CTR/RFC 3394/HMAC/RSA/CRC) over exported files + differential parse + byte-corruption sweep"
 RULE = (
